@@ -42,9 +42,12 @@ class Gen(object):
             return g.var(r.choice(names))
         if k < 0.85:
             return g.lst(g.c(1), g.c(2), g.c(3))
-        if k < 0.93:
+        if k < 0.9:
             self.needs_dict = True
             return g.attr(g.var('doc'), r.choice(['a', 'l', 'n']))
+        if k < 0.94:
+            self.needs_dict = True
+            return g.idx2(g.var('doc'), g.c(r.choice(['a', 'n', 'zz'])), g.c(r.choice([0, 7])))
         return g.c('s')
 
     def intexpr(self, d, sc):
